@@ -600,27 +600,28 @@ def real_tokens(text):
 
 
 def check_print(texts, rng, res):
-    """stream `print`: the model parses `text`, prints the AST (`Print.printPaths`), and the REAL parser must read the
+    """streams `print` / `printa` (unabbreviated / abbreviated steps): the model parses `text`, prints the AST
+    (`Print.printPaths` / `Print.printPathsA`), and the REAL parser must read the
     printed text as the AST it reads from `text` (= the model's); `print-tokens`: the real tokenizer on the printed
     text gives the printer's token list; `print-tokens-mutated` / `print-parse-mutated`: tokenizer and parser, model
     vs code, on damaged printed texts."""
-    lines = [proto.line(Atom('C05'), Atom('print'), t) for t in texts]
-    answers = proto.run_lines(lines)
     mlines, mplan = [], []
-    for text, ans in zip(texts, answers):
+    jobs = [(verb, t) for t in texts for verb in ('print', 'printa')]
+    answers = proto.run_lines([proto.line(Atom('C05'), Atom(verb), t) for verb, t in jobs])
+    for (verb, text), ans in zip(jobs, answers):
         res.evaluations += 1
-        case = {'path': text, 'stream': 'print'}
+        case = {'path': text, 'stream': verb}
         if ans == 'unmodelled':
-            res.count('print:unmodelled')
+            res.count(verb + ':unmodelled')
             continue
         try:
             m = proto.dec(ans)
         except Exception:  # noqa
-            res.disagreements.append({'stream': 'print', 'case': case, 'model': ans[:300], 'real': 'undecodable'})
+            res.disagreements.append({'stream': verb, 'case': case, 'model': ans[:300], 'real': 'undecodable'})
             continue
         if m[0] != 'ok':
-            res.count('print:' + str(m[0]))
-            if m[0] == 'unprintable':
+            res.count(verb + ':' + str(m[0]))
+            if m[0] == 'unprintable' and verb == 'print':
                 for mark, why in (('text()', 'node-type'), ('comment()', 'node-type'), ('node()', 'node-type'),
                                   ('processing-instruction', 'node-type'), ('[.', 'dot'), ('-', 'minus'),
                                   ('matches(', 'matches')):
@@ -632,8 +633,10 @@ def check_print(texts, rng, res):
             continue
         printed, toks, back, same = m[1], m[2], m[3], m[4]
         case['printed'] = printed
-        res.count('print:ok')
-        res.streams['print'] = res.streams.get('print', 0) + 1
+        res.count(verb + ':ok')
+        res.streams[verb] = res.streams.get(verb, 0) + 1
+        if verb == 'printa':
+            res.count('printa:abbreviated' if '::' not in printed else 'printa:has-explicit-axis')
         if '( ' in printed:
             res.count('print:has-paren')
         res.count('print:preds=%d' % min(printed.count('['), 4))
@@ -645,17 +648,17 @@ def check_print(texts, rng, res):
             res.count('print:number')
         real_orig, real_back = real_parse(text), real_parse(printed)
         if str(same) != 'T':
-            res.disagreements.append({'stream': 'print', 'case': case, 'model': 'round trip in the model: ' + repr(back)[:400],
+            res.disagreements.append({'stream': verb, 'case': case, 'model': 'round trip in the model: ' + repr(back)[:400],
                                       'real': repr(real_orig)[:400]})
         elif real_back != real_orig or real_back != back:
-            res.disagreements.append({'stream': 'print', 'case': case, 'model': repr(back)[:500],
+            res.disagreements.append({'stream': verb, 'case': case, 'model': repr(back)[:500],
                                       'real': repr(real_back)[:300] + ' <- printed | original -> ' + repr(real_orig)[:300]})
         else:
-            res.nontrivial.add('print|' + path_shape(printed))
+            res.nontrivial.add(verb + '|' + path_shape(printed))
         rt = real_tokens(printed)
-        res.streams['print-tokens'] = res.streams.get('print-tokens', 0) + 1
+        res.streams[verb + '-tokens'] = res.streams.get(verb + '-tokens', 0) + 1
         if rt != toks:
-            res.disagreements.append({'stream': 'print-tokens', 'case': case, 'model': repr(toks)[:500], 'real': repr(rt)[:500]})
+            res.disagreements.append({'stream': verb + '-tokens', 'case': case, 'model': repr(toks)[:500], 'real': repr(rt)[:500]})
         for _ in range(2):
             mt = mutate_text(rng, printed)
             if any(ord(c) > 127 for c in mt):
